@@ -21,13 +21,14 @@ func vSessionOpts(s int) []ExtraOption {
 
 // H_C01_Map: any program of Put / Delete / Get / compaction cycle / Close+Open reads like a map.
 func H_C01_Map() {
+	vrt.RandPromoteBudget(0)
 	h := vNewDBEnv()
 	defer h.fs.Cleanup()
 	session := 0
 	vrt.Assert(h.open(vSessionOpts(session)...) == nil, "db/open-no-error")
-	steps := 4
+	steps := 3
 	if vrt.Thorough() {
-		steps = 5
+		steps = 4
 	}
 	nv := 0
 	for s := 0; s < steps; s++ {
